@@ -552,6 +552,11 @@ func c14One(c *vf.Ctx, sub string, i int, r *rand.Rand, ids []Ident) {
 		case "event.emit.begin":
 			if a := ast[e.G]; a != nil {
 				a.emits++
+				// the notification of an announce-triggered sync carries the head that sync was for (the
+				// announcement it took), whatever announcement the goroutine was started for
+				if a.head.Defined() && !e.Cid.Equals(a.head) {
+					c.Fail(sub, i, "announce-sync-notification-names-another-head", fmt.Sprintf("publisher %s: the handling goroutine took the announcement of head #%d and sent a notification for head #%d", short(a.peer), byID[a.peer].chain.Pos(a.head), byID[a.peer].chain.Pos(e.Cid)), wit())
+				}
 			} else {
 				explicitEmits++
 			}
